@@ -47,8 +47,71 @@ def load_known():
         return json.load(f).get("findings", [])
 
 
+class Part:
+    """Picklable partial result produced by a worker process (same reporting surface as Run)."""
+
+    def __init__(self):
+        self.obligations, self.cands, self.inconcl = [], [], []
+        self.stats = Stats()
+        self.validated_n = 0
+        self.reached = 0
+        self.extra = {}
+
+    def obligation(self, name, verdict, **detail):
+        d = dict(name=name, verdict=verdict)
+        d.update(_jsonable(detail))
+        self.obligations.append(d)
+
+    def violation(self, key, desc, replay_src, model=None):
+        self.cands.append((key, desc, replay_src, _jsonable(model)))
+        return "candidate"
+
+    def validated(self, n=1):
+        self.validated_n += n
+
+    def inconclusive_(self, msg):
+        self.inconcl.append(str(msg))
+
+
+def _work(args):
+    fn, item = args
+    part = Part()
+    try:
+        fn(part, item)
+    except BaseException as e:  # noqa: BLE001 - a crashing worker is inconclusive, never a pass
+        import traceback
+        part.inconcl.append(f"worker {item!r}: {type(e).__name__}: {e} :: {traceback.format_exc()[-600:]}")
+    return part
+
+
 class Run:
     """Collects what one check run covered and turns it into exit code + evidence."""
+
+    def merge(self, part):
+        self.stats.add(part.stats)
+        for d in part.obligations:
+            self.obligations.append(d)
+            if len(self.samples) < 12 or (d["verdict"] != "holds" and len(self.samples) < 40):
+                self.samples.append(d)
+        self.traces_validated += part.validated_n
+        self.inconclusive.extend(part.inconcl)
+        for key, desc, src, model in part.cands:
+            self.violation(key, desc, src, model=model)
+        return part
+
+    def pmap(self, fn, items, procs=None):
+        """run fn(part, item) for every item in worker processes (fork); merge in order."""
+        import multiprocessing as mp
+        items = list(items)
+        procs = procs or min(int(os.environ.get("SYMX_PROCS", "14")), max(1, len(items)))
+        if procs <= 1 or len(items) <= 1:
+            parts = [_work((fn, it)) for it in items]
+        else:
+            with mp.get_context("fork").Pool(procs) as pool:
+                parts = pool.map(_work, [(fn, it) for it in items], chunksize=1)
+        for p in parts:
+            self.merge(p)
+        return parts
 
     def __init__(self, pid, tier, seed):
         self.pid, self.tier, self.seed = pid, tier, seed
